@@ -64,6 +64,6 @@ PROP = dict(
         "inputs avoid what the format documents as special: no blank line before the first benchmark line (permanent file header), no iteration count 0, no malformed values, no negative values, distinct configuration names",
     ],
     units=[
-        R("rapid", "A", "./c17", "TestC17Rapid", (2000, 16), (80000, 16)),
+        R("rapid", "A", "./c17", "TestC17Rapid", (2000, 16), (60000, 16)),
     ],
 )
